@@ -7,19 +7,15 @@ PROP = {'modules': ['SfntV.Props.C08'],
                        'C08_st_len_gsub1_2', 'C08_st_roundtrip_gsub2_1_3_1', 'C08_st_len_gsub2_1_3_1', 'C08_st_roundtrip_gsub4_1',
                        'C08_lookuplist_layout', 'C08_valuerecord_roundtrip', 'C08_st_roundtrip_gpos1_1',
                        'C08_st_roundtrip_gpos1_2', 'C08_gpos1_2_normal_form', 'C08_st_roundtrip_gpos2_1',
-                       'C08_featurelist_roundtrip'],
+                       'C08_featurelist_roundtrip', 'C08_gdef_roundtrip'],
  'areas': [('otl', 900, 12000)],
  'rule': 'distinct case lines; non-trivial = coverage/class tables with at least two glyphs/runs, every '
          'subtable, every lookup-list and every mutated-bytes case',
- 'partial': ['codecs proved: GSUB 1.1, 1.2, 2.1, 3.1, 4.1, GPOS value records, GPOS 1.1, 1.2, 2.1, feature list',
+ 'partial': ['codecs proved: GSUB 1.1, 1.2, 2.1, 3.1, 4.1, GPOS value records, GPOS 1.1, 1.2, 2.1, feature list, GDEF',
              'not modelled yet: GSUB 8.1, GPOS 2.2/3.1/4.1/5.1/6.1, (chained) context lookups, '
              'anchors, mark arrays, script list (needs the BCP47<->OpenType tag tables and x/text '
              'canonicalisation as oracles) and the GSUB/GPOS header (Info.Encode); the '
              'theorems scriptlist/gtab_roundtrip of DESIGN section 8 are therefore open',
-             'GDEF (Table.Encode / Read: header, the two class definition tables, mark glyph sets with 32-bit '
-             'offsets) is modelled and tied by byte-exact encode / value-exact decode correspondence '
-             '(streams otl.gdef.*, including the 16-bit offset boundary), its parts are the proved '
-             'cov_*/classdef_* theorems, but the assembled gdef_roundtrip theorem is not written',
              'readLookupList (the Go reader of lookup lists, with its 6000-entry budget and its two-pass '
              'extension resolution) is modelled and tied by value-exact correspondence on encoder output, '
              'hand-built extension lookups and mutated bytes (stream otl.ll.read), but no theorem is stated '
@@ -48,16 +44,18 @@ PROP = {'modules': ['SfntV.Props.C08'],
 
 LEVEL = {'text': 'Proof (partial over subtable types): Lean models of coverage.Table/Set Encode/EncodeLen/Read, '
          'classdef.Table Append/AppendLen/Read, LookupList.encode with tryReorder and extension records '
-         '(subtables as opaque blobs), GSUB 1.1/1.2/2.1/3.1 and GPOS value records, 1.1, 1.2 codecs; theorems: '
-         'decode(encode x) = x, declared size = emitted size, coverage indices 0..n-1 in glyph order, the '
-         'smaller format is chosen, and for every lookup list either the specification reader recovers '
-         'every (type, flags, mark filtering set, subtable bytes) through the written 16-bit offsets and '
-         '32-bit extension offsets, or the encoder panics - never a wrapped offset. Tied to the code by '
-         'byte-exact encoder and value-exact decoder correspondence (generated, boundary and mutated '
-         'inputs) and by evaluating independent specification readers on the bytes of the real encoders. '
-         'Eleven silent 16-bit truncations found on the way were repaired as loud refusals.',
+         '(subtables as opaque blobs), GSUB 1.1/1.2/2.1/3.1/4.1, GPOS value records and 1.1/1.2/2.1, the '
+         'feature list and GDEF; theorems: decode(encode x) = x, declared size = emitted size, coverage '
+         'indices 0..n-1 in glyph order, the smaller format is chosen, independence of map iteration order, '
+         'and for every lookup list either the specification reader recovers every (type, flags, mark '
+         'filtering set, subtable bytes) through the written 16-bit offsets and 32-bit extension offsets, or '
+         'the encoder panics - never a wrapped offset. Tied to the code by byte-exact encoder and '
+         'value-exact decoder correspondence (generated, boundary and mutated inputs) and by evaluating '
+         'independent specification readers on the bytes of the real encoders. Twelve silent 16-bit '
+         'truncations found on the way were repaired as loud refusals (one, classdef format 1, as a '
+         'correct choice of format 2).',
  'note': 'Trusted: Lean kernel + 3 standard axioms; hand-written models mirror the (repaired) Go code as checked '
          'by sampled correspondence; the specification readers are my reading of OpenType chapter 2 / GSUB / '
-         'GPOS. Remaining subtable types, script/feature lists, table header and GDEF assembly are not modelled.',
+         'GPOS. Remaining subtable types, script list and table header are not modelled.',
  'technique': 'Lean 4 proofs about encoder/decoder models against executable specification readers + byte-exact '
               'differential correspondence'}
